@@ -422,7 +422,7 @@ func judge(r *rep.Reporter, c *rep.Case, sc *scenario, rg *rig, eng *engine, mar
 		}
 		cause := causeOf(d.s.MsgID, tx)
 		switch strings.TrimPrefix(term, "nested-mail+") {
-		case "ehlo", "rset", "end", "probe", "unattributed":
+		case "ehlo", "rset", "end", "probe", "unattributed", "data-cut-in-header", "data-cut-after-header":
 			// the way the transaction ended is the cause class; an earlier refused
 			// recipient etc. has nothing to do with it
 			if cause != "server-panic" {
@@ -443,7 +443,12 @@ func judge(r *rep.Reporter, c *rep.Case, sc *scenario, rg *rig, eng *engine, mar
 			}
 		}
 		if !d.closed() {
-			if ended {
+			if ended && rg.stuck != nil && !d.probe {
+				c.Violation(fmt.Sprintf("a/unclosed-delivery/%s/term=%s/cause=deadlock:%s/after=%s", proto, term, rg.stuck.class(), eng.stuckOp),
+					fmt.Sprintf("delivery %d on %s (msg %s) can never be committed or aborted: after %q the connection goroutine waits in Session.%s for msgLock, which Session.%s holds while it waits for the next BDAT chunk that only the connection goroutine could deliver; the client has disconnected, the server will never notice",
+						d.s.Delivery, d.s.Target, d.s.MsgID, eng.stuckOp, rg.stuck.WaiterMethod, rg.stuck.HolderMethod),
+					witness(map[string]any{"delivery": d.s.Delivery, "deadlock": rg.stuck, "first_snapshot": rg.dl1}))
+			} else if ended {
 				c.Violation(fmt.Sprintf("a/unclosed-delivery/%s/term=%s/cause=%s", proto, term, cause),
 					fmt.Sprintf("delivery %d on %s (msg %s) was neither committed nor aborted although the session has ended", d.s.Delivery, d.s.Target, d.s.MsgID),
 					witness(map[string]any{"delivery": d.s.Delivery}))
@@ -454,28 +459,26 @@ func judge(r *rep.Reporter, c *rep.Case, sc *scenario, rg *rig, eng *engine, mar
 	}
 
 	// A PartialDelivery target reports per-recipient failures under the EFFECTIVE address and the
-	// pipeline translates them back with ONE map effective -> original per message
-	// (msgpipelineDelivery.originalRcpts). When two RCPT commands of a transaction resolve to the same
-	// effective address (alias and its expansion both named; on the same target or on different ones),
-	// a failing status for that address reaches only the recipient that wrote the map entry last -
-	// on the pinned tree the other one keeps the implicit 250 (suspected defect, reported; see
-	// NOTES.md "alias and expanded form"). Where the address sits twice on ONE partial target the
-	// scripted target's per-address status cannot be attributed to an instance either. Only those
-	// recipients, and only when a PartialDelivery target did report a failing status for the shared
-	// address, are left unjudged per recipient (LMTP); the transaction-level clauses still apply, and
-	// every failure that does not come from a partial target's status (body check, RewriteBody,
-	// Body of a non-partial target) is judged for them.
+	// pipeline translates them back to the recipients as the client named them. When two RCPT commands
+	// of a transaction resolve to the same effective address (alias and its expansion both named; on
+	// the same target or on different ones) a failing status for that address belongs to every
+	// recipient that reached THAT target under it, and to no other (until fix 9ea4163 the pipeline
+	// kept ONE map effective -> original per message and gave the failure to whichever recipient wrote
+	// the entry last; such recipients were left unjudged then). They are judged like all others now;
+	// the class is counted so that a run without it is inconclusive. VERIF_C03_SKIP_SHARED=1 restores
+	// the old exclusion (drill only).
 	ambiguousShared := func(tx *ctx, rc *rcptRec) bool {
-		if os.Getenv("VERIF_C03_JUDGE_SHARED") != "" { // drill: show the pinned tree's behaviour
-			return false
-		}
 		for _, a := range sharedAddrs(sc, tx, rc) {
 			for _, d := range ds {
 				if d.probe || !sc.Partial[d.tgt] {
 					continue
 				}
 				if _, bad := d.s.Status[a]; bad {
-					return true
+					if os.Getenv("VERIF_C03_SKIP_SHARED") != "" {
+						return true
+					}
+					r.Count("alias_shared_address_failed_on_partial_target_judged", 1)
+					return false
 				}
 			}
 		}
@@ -588,6 +591,11 @@ func judge(r *rep.Reporter, c *rep.Case, sc *scenario, rg *rig, eng *engine, mar
 		switch tx.Outcome {
 		case "success", "unknown":
 		case "aborted":
+			if tx.CutData && cause != "server-panic" {
+				// an abandoned DATA transfer: earlier refused recipients etc. have nothing to do with it;
+				// what matters is how the endpoint buffers the body
+				cause = "buffer-" + bufMode(sc)
+			}
 			c.Violation(fmt.Sprintf("d/committed-without-completion/%s/term=%s/cause=%s", proto, termOf(tx), cause),
 				fmt.Sprintf("message %s was committed to a target although the client never completed the transaction (it ended with %s)", msg, tx.Term),
 				witness(map[string]any{"msg_id": msg}))
